@@ -480,7 +480,7 @@ def distance(idx0, idx1, ncol, latlon=False, transform=IDENTITY):
     dr = abs(r1 - r0)
     dc = abs(int(idx1 % ncol) - int(idx0 % ncol))
     if latlon:  # calculate cell size in metres
-        lat = north + (r0 + r1) / 2.0 * yres
+        lat = north + ((r0 + r1) / 2.0 + 0.5) * yres  # mean latitude of the cell centres
         dy = 0.0 if dr == 0 else degree_metres_y(lat) * yres
         dx = 0.0 if dc == 0 else degree_metres_x(lat) * xres
     else:
